@@ -24,6 +24,9 @@ WATCHDOG_S = 30.0
 NMAX = {"quick": 3, "thorough": 4}
 PMAX = {"quick": 3, "thorough": 5}  # every variant runs on every layout with <= PMAX partitions
 PWIDE = {"quick": 4, "thorough": 5}  # the cross-partition variants (CROSS) additionally run on layouts with up to PWIDE partitions
+NIN = {"quick": 32, "thorough": 64}  # repartition sweep: every input partition count 1..NIN x every target 1..nin+2
+SWEEP_FILLS = ("one", "mod3", "seq")  # 1 element per partition | i % 3 elements in partition i (from_delayed) | from_sequence(npartitions=nin)
+SWEEP_SIZES = (64, 100, 200, 400)  # partition_size (bytes) variants of the sweep
 # variants whose result is assembled ACROSS partitions (tree reductions, shuffles, carries, boundaries)
 CROSS = frozenset(
     "distinct frequencies topk fold reduction foldby groupby accumulate take repartition sum max min any all count mean var std".split()
@@ -51,7 +54,10 @@ def RULE(tier):
         "(tasks with max_branch None|2, disk with npartitions None|1|2 and blocksize 2|64; int and str keys), join (list / delayed / 1-partition bag), product, "
         "accumulate (initial), take (k, npartitions 1|2|-1), repartition (npartitions 1..4, partition_size), zip, concat, "
         "sum/max/min/any/all/count/mean/var/std (ddof) -- each x split_every {None,2} where it applies.  Oracle = plain Python on the "
-        "concatenated sequence. non-trivial = >= 2 partitions."
+        "concatenated sequence. non-trivial = >= 2 partitions.  "
+        f"Repartition sweep: every input partition count nin in 1..{NIN[tier]} x EVERY target npartitions 1..nin+2 x fill {SWEEP_FILLS} "
+        f"(+ partition_size in {SWEEP_SIZES} for every nin): same multiset of (position-tagged) elements, count() equal, and exactly the "
+        "requested number of partitions."
     )
 
 
@@ -226,10 +232,21 @@ def shards(tier):
         for a in range(vb):
             for b in range(sb):
                 out.append((n, a, vb, b, sb))
+    step = 4
+    for lo in range(1, NIN[tier] + 1, step):
+        out.append(("rsweep", lo, min(lo + step - 1, NIN[tier])))
     return out
 
 
 def cases_of(shard, tier):
+    if shard[0] == "rsweep":
+        for nin in range(shard[1], shard[2] + 1):
+            for fill in SWEEP_FILLS:
+                for nout in range(1, nin + 3):
+                    yield ("rsweep", fill, nin, "n", nout)
+            for size in SWEEP_SIZES:
+                yield ("rsweep", "one", nin, "size", size)
+        return
     n, a, vb, b, sb = shard
     pmax = PMAX[tier]
     vs = variants(tier)
@@ -534,6 +551,52 @@ def known_class(case, failure):
     return None
 
 
+def sweep_parts(fill, nin):
+    """position-tagged elements, partition by partition"""
+    if fill == "mod3":
+        return [[100 * i + j for j in range(i % 3)] for i in range(nin)]
+    return [[100 * i] for i in range(nin)]
+
+
+def float_rounded_last_boundary(nin, nout):
+    """input class of the recorded finding: shrinking nin -> nout where the float product nout * (nin / nout) truncates below nin"""
+    return nout < nin and int(nout * (nin / nout)) != nin
+
+
+def run_sweep(case, ctx):
+    import dask.bag as db
+    from dask import delayed
+
+    _, fill, nin, how, arg = case
+    parts = sweep_parts(fill, nin)
+    want = [x for p in parts for x in p]
+    try:
+        if fill == "seq":
+            b = db.from_sequence(want, npartitions=nin)
+        else:
+            b = db.from_delayed([delayed(list, pure=False)(p) for p in parts])
+        if b.npartitions != nin:
+            raise AssertionError(f"harness: built {b.npartitions} partitions, wanted {nin}")
+        r = b.repartition(npartitions=arg) if how == "n" else b.repartition(partition_size=arg)
+        got = r.compute(scheduler="sync")
+        cnt = r.count().compute(scheduler="sync")
+        npart = r.npartitions
+    except Hang:
+        raise
+    except AssertionError:
+        raise
+    except Exception as e:  # noqa: BLE001
+        ctx.case(case, nontrivial=False, outcome=("exc", type(e).__name__))
+        ctx.violation(f"repartition:dask-raises:{type(e).__name__}", case, f"{e!r} (sweep {nin} partitions -> {how}={arg})")
+        return
+    ctx.case(case, nontrivial=nin >= 2, outcome=(nin, how, arg, npart))
+    if not isinstance(got, list) or msort(got) != msort(want) or cnt != len(want):
+        ctx.violation("repartition:wrong-value", case, f"{nin} partitions -> {how}={arg}: got {got!r} (count {cnt}), expected (any order) {want!r}")
+    elif how == "n" and npart != arg:
+        kc = ":shrink-with-float-rounded-last-boundary" if float_rounded_last_boundary(nin, arg) and npart == arg + 1 else ""
+        ctx.violation(f"repartition:wrong-npartitions{kc}", case, f"repartition(npartitions={arg}) of {nin} partitions has {npart} partitions")
+
+
 def setup():
     import dask
 
@@ -544,7 +607,10 @@ def run_case(case, ctx):
     import dask
 
     with dask.config.set(scheduler="sync"):
-        _run_case(case, ctx)
+        if case[0] == "rsweep":
+            run_sweep(case, ctx)
+        else:
+            _run_case(case, ctx)
 
 
 def _run_case(case, ctx):
